@@ -8,6 +8,7 @@ Entries
 """
 import math
 import pickle
+import re
 
 import numpy as np
 from hypothesis import strategies as st
@@ -161,6 +162,110 @@ def reference_parse(tokens):
     assert len(flux) == n and len(err) == n
     return (status, {'name': tokens[0], 'x': float(tokens[1]), 'y': float(tokens[2]),
                      'valid': flags, 'flux': flux, 'error': err})
+
+
+_DECIMAL = re.compile(r'^[+-]?(\d+(\.\d*)?|\.\d+)([eE][+-]?\d+)?$', re.ASCII)
+
+
+def classify_number(tok):
+    """'ok' (plain decimal literal: must be read as that number), 'bad' (not a number for Python: must be rejected) or
+    'either' (nan / inf spellings, digit separators, non-ASCII digits ...: number parsers differ, nothing is claimed)"""
+    if _DECIMAL.match(tok):
+        v = float(tok)
+        return ('ok', v) if v == v and abs(v) != float('inf') else ('either', None)
+    try:
+        float(tok)
+    except ValueError:
+        return ('bad', None)
+    return ('either', None)
+
+
+def reference_parse_chars(tokens):
+    """like reference_parse, for tokens made of arbitrary characters -> ('eof',) | ('reject',) | ('either',) | ('ok', parsed)"""
+    c = len(tokens)
+    if c < 3:
+        return ('eof',)
+    if c % 3 != 0:
+        return ('reject',)
+    n = c // 3 - 1
+    status = 'ok'
+    flags = []
+    for tok in tokens[3:3 + n]:
+        kind, val = classify_flag(tok) if tok.isascii() else (('bad', None) if classify_number(tok)[0] == 'bad' else ('either', None))
+        if kind == 'bad':
+            return ('reject',)
+        if kind == 'either':
+            status = 'either'
+        flags.append(val)
+    nums = []
+    for tok in tokens[1:3] + tokens[3 + n:]:
+        kind, val = classify_number(tok)
+        if kind == 'bad':
+            return ('reject',)
+        if kind == 'either':
+            status = 'either'
+        nums.append(val)
+    if status == 'either':
+        return ('either',)
+    rest = nums[2:]
+    return ('ok', {'name': tokens[0], 'x': nums[0], 'y': nums[1], 'valid': flags, 'flux': rest[0::2], 'error': rest[1::2]})
+
+
+_junk_chars = st.sampled_from(list('0123456789.eE+-_naifNAIFxX,;:#') + ['\u0661', '\u0662', '\uff11', '\u00bd', '\u2212'])
+junk_tokens = st.text(alphabet=_junk_chars, min_size=1, max_size=6)
+
+
+@st.composite
+def char_case(draw):
+    n = draw(st.integers(0, 6))
+    c = draw(st.sampled_from([3 * (n + 1)] * 3 + [3 * (n + 1) - 1, 3 * (n + 1) + 1, 3 * (n + 1) + 2, 1, 2, 0]))
+    toks = []
+    for i in range(c):
+        junk = draw(st.integers(0, 7)) == 0
+        if i == 0:
+            toks.append(draw(names))
+        elif junk:
+            toks.append(draw(junk_tokens))
+        elif 3 <= i < 3 + n:
+            toks.append(str(draw(st.sampled_from(ALLOWED))))
+        else:
+            toks.append(draw(value_token()))
+    nsep = c + 2
+    return {'tokens': toks, 'sep': draw(st.lists(seps, min_size=nsep, max_size=nsep)),
+            'lead': draw(st.sampled_from(['', ' ', '\t'])), 'tail': draw(st.sampled_from(['', '\n', ' \n', '\r\n']))}
+
+
+def run_chars(case, ctx):
+    """lines whose tokens are made of arbitrary characters: never mis-assigned, never a crash other than an exception"""
+    from sedfitter.source import Source
+    tokens = case['tokens']
+    line = build_line(case, tokens)
+    expect = reference_parse_chars(tokens)
+    labels = {'chars_' + expect[0]}
+    what = 'line %r' % line
+    try:
+        s = Source.from_ascii(line)
+    except EOFError:
+        if expect[0] not in ('eof',):
+            fail('%s was taken as end of input' % what, 'parse:spurious_eof')
+        return labels, False
+    except Violation:
+        raise
+    except Exception as exc:  # noqa
+        if expect[0] == 'eof':
+            fail('%s should end the input (EOFError), got %s' % (what, type(exc).__name__), 'parse:eof_expected')
+        if expect[0] == 'ok':
+            fail('%s is well-formed but was rejected: %s: %s' % (what, type(exc).__name__, exc), 'parse:wellformed_rejected')
+        return labels, len(tokens) >= 6
+    if expect[0] == 'eof':
+        fail('%s should end the input, but a source was returned' % what, 'parse:eof_expected')
+    if expect[0] == 'reject':
+        fail('%s does not fit the layout / holds a token that is no number or no valid flag, but was accepted as valid=%r flux=%r error=%r' % (
+            what, None if s.valid is None else list(s.valid), None if s.flux is None else list(s.flux),
+            None if s.error is None else list(s.error)), 'parse:malformed_accepted')
+    if expect[0] == 'ok':
+        compare_parsed(s, expect[1], what)
+    return labels, len(tokens) >= 6
 
 
 def _same_float(a, b):
@@ -320,9 +425,10 @@ def run_roundtrip(case, ctx):
     return labels, n >= 1
 
 
-ENTRIES = {'parse': run_parse, 'roundtrip': run_roundtrip}
+ENTRIES = {'parse': run_parse, 'roundtrip': run_roundtrip, 'chars': run_chars}
 
 
 def plan(ctx):
     ctx.run_given('parse', line_case(), ctx.scale(60, 1500))
     ctx.run_given('roundtrip', source_case(), ctx.scale(60, 1500))
+    ctx.run_given('chars', char_case(), ctx.scale(120, 4000))
